@@ -145,6 +145,12 @@ var arrayUnit = qUnit{
 		{Func: "Array.Insert", Lean: "Array_Insert", Fuel: true},
 		{Func: "Array.Append", Lean: "Array_Append", Fuel: true},
 		{Func: "Array.remove", Lean: "Array_remove", Fuel: true},
+		{Func: "ArrayDataSlab.ExtraData", Lean: "ArrayDataSlab_ExtraData"},
+		{Func: "ArrayMetaDataSlab.ExtraData", Lean: "ArrayMetaDataSlab_ExtraData"},
+		{Func: "ArrayDataSlab.Inlined", Lean: "ArrayDataSlab_Inlined"},
+		{Func: "ArrayMetaDataSlab.Inlined", Lean: "ArrayMetaDataSlab_Inlined"},
+		{Func: "Array.Inlined", Lean: "Array_Inlined"},
+		{Func: "Array.PopIterate", Lean: "Array_PopIterate", Fuel: true},
 	},
 	EnvMethods: map[string]qEnvMethod{
 		// translated by the stateless engine (Gen/Trans.lean, TransEq.ArrayMetaDataSlab_childSlabIndexInfo_eq_model)
